@@ -285,7 +285,9 @@ func c07Scens(tier string) []msScen {
 		reqs  [][][]string
 	}
 	for _, sb := range []stalled{
-		{cfgLL, []int{6, 9}, [][][]string{{{"PH!stall"}}, {{"PH!stall"}, {"BR"}}, {{"PART!stall"}, {"PH"}}, {{"SEG!stall"}, {"PL"}}, {{"PL!stall"}, {"BR"}}}},
+		{cfgLL, []int{6, 9}, [][][]string{{{"PH!stall"}}, {{"PH!stall"}, {"BR"}}, {{"PART!stall"}, {"PH"}}, {{"SEG!stall"}, {"PL"}}, {{"PL!stall"}, {"BR"}},
+			// blocking reloads whose answer the client is slow to take: one that is satisfied at once, one that has to wait
+			{{"BRPUB!stall"}, {"BR"}}, {{"BR!stall"}, {"PH"}}, {{"BRPUB!stall"}, {"PL"}}}},
 		{cfgLLDisk, []int{9}, [][][]string{{{"PH!stall"}}, {{"PART!stall"}, {"BR"}}, {{"SEG!stall"}}}},
 		{cfgFMP4Disk, []int{10}, [][][]string{{{"SEG!stall"}}, {{"INIT!stall"}, {"PL"}}}},
 		{cfgTSDisk, []int{10}, [][][]string{{{"SEG!stall"}, {"PL"}}}},
